@@ -1,13 +1,16 @@
 package checks
 
 import (
+	"encoding/json"
 	"errors"
+	"math/big"
 	"fmt"
 	"sort"
 	"strings"
 
 	bcrpb "github.com/google/fhir/go/proto/google/fhir/proto/r4/core/resources/bundle_and_contained_resource_go_proto"
 	"github.com/verily-src/fhirpath-go/fhirpath"
+	"github.com/verily-src/fhirpath-go/fhirpath/system"
 	"github.com/verily-src/fhirpath-go/fhirpath/verifh/core"
 	"github.com/verily-src/fhirpath-go/fhirpath/verifh/lib"
 	"github.com/verily-src/fhirpath-go/internal/fhir"
@@ -29,6 +32,7 @@ type c02Node struct {
 	kids   map[string][]*c02Node
 	repeated map[string]bool
 	md     protoreflect.MessageDescriptor
+	jval   any // JSON value of a primitive element (string, json.Number, bool); nil when it has none
 }
 
 var c02Keywords = map[string]bool{"div": true, "mod": true, "and": true, "or": true, "xor": true, "implies": true, "true": true, "false": true,
@@ -187,6 +191,7 @@ func (b *c02Builder) build(obj map[string]any, m protoreflect.Message, copied bo
 				} else {
 					child = &c02Node{msg: pm.Interface(), copied: childCopied, md: pm.Descriptor()}
 				}
+				child.jval = jv
 			}
 			b.add(n, base, child, isList)
 		}
@@ -208,6 +213,53 @@ func c02Match(got any, want *c02Node) bool {
 		return proto.Equal(gm, want.msg)
 	}
 	return any(gm) == any(want.msg)
+}
+
+// c02PrimDiff compares the System value of `<primitive>.value` with the JSON
+// value of that primitive: strings (codes, uris, dates, times, base64) exactly,
+// numbers numerically, booleans by value. "" means equal.
+func c02PrimDiff(got any, jv any) string {
+	switch v := jv.(type) {
+	case string:
+		s, ok := got.(system.String)
+		if !ok {
+			return fmt.Sprintf("type-%T-for-json-string", got)
+		}
+		if string(s) != v {
+			return "text-differs"
+		}
+	case bool:
+		b, ok := got.(system.Boolean)
+		if !ok {
+			return fmt.Sprintf("type-%T-for-json-boolean", got)
+		}
+		if bool(b) != v {
+			return "boolean-differs"
+		}
+	case json.Number:
+		want, ok := new(big.Rat).SetString(v.String())
+		if !ok {
+			return "harness-json-number"
+		}
+		var have *big.Rat
+		switch g := got.(type) {
+		case system.Integer:
+			have = new(big.Rat).SetInt64(int64(g))
+		case system.Decimal:
+			have, ok = new(big.Rat).SetString(g.String())
+			if !ok {
+				return "decimal-not-a-number"
+			}
+		default:
+			return fmt.Sprintf("type-%T-for-json-number", got)
+		}
+		if have.Cmp(want) != 0 {
+			return "number-differs"
+		}
+	default:
+		return fmt.Sprintf("harness-json-%T", jv)
+	}
+	return ""
 }
 
 func c02MatchAll(got []any, want []*c02Node) bool {
@@ -289,7 +341,7 @@ func c02Shape(root *c02Node, names []string) string {
 func init() {
 	core.Register(&core.Check{
 		ID: "C02",
-		Rule: "for every resource of the schema-covering family (146 types, every field populated, each-choice covering, depth 2 quick / 3 thorough; typed/versioned/absolute/fragment/URN references, contained resources, Bundle entries, primitive ids and extensions, every date/time precision): the jsonformat JSON tree is walked in parallel with the proto to build the logical element tree; every name path of the tree and every prefix is evaluated un-indexed with and without the root type, with exactly one step indexed (each step, indexes 0, 1, len-1, len) and fully indexed down to every single element; results are compared with the tree by pointer identity (equal copy through Any-packed contained resources, string value for Reference.reference), in document order; every other resource type as root gives empty; per message type, names of other types and proto-only names must fail with ErrInvalidField; non-trivial = distinct (resource, expression, outcome)",
+		Rule: "for every resource of the schema-covering family (146 types, every field populated, each-choice covering, depth 2 quick / 3 thorough; typed/versioned/absolute/fragment/URN references, contained resources, Bundle entries, primitive ids and extensions, every date/time precision): the jsonformat JSON tree is walked in parallel with the proto to build the logical element tree; every name path of the tree and every prefix is evaluated un-indexed with and without the root type, with exactly one step indexed (each step, indexes 0, 1, len-1, len) and fully indexed down to every single element; results are compared with the tree by pointer identity (equal copy through Any-packed contained resources, string value for Reference.reference), in document order; for every primitive element that has a JSON value, `<fully indexed path>.value` must yield one System value equal to the JSON value (strings, codes, dates, dateTimes, instants and times textually - hence same instant, precision and offset -, numbers numerically, booleans by value); every other resource type as root gives empty; per message type, names of other types and proto-only names must fail with ErrInvalidField; non-trivial = distinct (resource, expression, outcome)",
 		Assumptions: []string{"google/fhir jsonformat defines the FHIR JSON tree", "the parallel JSON/proto walk uses only proto descriptors (JSON names, oneof 'choice', ContainedResource, Any)"},
 		Subs: func(tier string) []core.Sub {
 			names := lib.ResourceTypeNames()
@@ -439,6 +491,20 @@ func init() {
 										d = got.Panic.Key()
 									}
 									r.Fail("navigation|fully-indexed|"+d, core.W{"type": tn, "variant": vi, "src": s, "got": core.Short(got.String(), 300)})
+								}
+								if c.jval != nil && c.md != nil && lib.IsPrimitiveMsg(c.md) && c.md.Name() != "Xhtml" {
+									vs := s + ".value"
+									gv := eval(vs)
+									kind := string(c.md.Name())
+									r.State("primitive-value|" + kind)
+									r.Nontrivial(tn, fmt.Sprint(vi), vs, gv.Class())
+									if gv.Panic != nil {
+										r.Fail("primitive-value|"+kind+"|"+gv.Panic.Key(), core.W{"type": tn, "variant": vi, "src": vs})
+									} else if !gv.OK() || len(gv.Coll) != 1 {
+										r.Fail("primitive-value|"+kind+"|"+gv.Class(), core.W{"type": tn, "variant": vi, "src": vs, "got": core.Short(gv.String(), 200), "json": fmt.Sprint(c.jval)})
+									} else if d := c02PrimDiff(gv.Coll[0], c.jval); d != "" {
+										r.Fail("primitive-value|"+kind+"|"+d, core.W{"type": tn, "variant": vi, "src": vs, "got": core.Short(gv.String(), 200), "json": fmt.Sprint(c.jval)})
+									}
 								}
 								full(s, c)
 							}
